@@ -1,8 +1,10 @@
 package slicefx
 
 import (
+	"fmt"
 	"go/token"
 	"go/types"
+	"os"
 	"strings"
 
 	"golang.org/x/tools/go/ssa"
@@ -211,8 +213,10 @@ func (c *octx) transfer(b *ssa.BasicBlock, in ostate) ostate {
 			if c.retSorted != nil {
 				idx := c.resultIndex()
 				if idx >= 0 && idx < len(x.Results) {
+					// the value as returned (a cell re-read after a sort in
+					// place), or the value last stored into the result cell
 					v := ssau.ResultValue(x, idx)
-					c.retSorted[x] = c.sorted(s, v)
+					c.retSorted[x] = c.sorted(s, v) || c.sorted(s, x.Results[idx])
 				}
 			}
 		}
@@ -255,6 +259,9 @@ func (c *octx) call(s ostate, call *ssa.Call) ostate {
 		}
 		if cf != nil && c.e.IsDescCmp != nil && c.e.IsDescCmp(cf) {
 			desc = true
+		}
+		if os.Getenv("WTF_DEBUG_ORDER") != "" {
+			fmt.Fprintf(os.Stderr, "order-sort in %s: x=%s desc=%v cf=%v\n", c.fn, x, desc, cf)
 		}
 		s = c.killAll(s)
 		if desc {
@@ -777,6 +784,9 @@ func (e *Engine) OrderSummaryOf(fn *ssa.Function, idx int, cfg OrderConfig) Orde
 		}
 	}
 	e.ordSum[k] = s
+	if os.Getenv("WTF_DEBUG_ORDER") != "" {
+		fmt.Fprintf(os.Stderr, "order-summary %s #%d: always=%v ifParam=%d\n", fn, idx, s.Always, s.IfParam)
+	}
 	return s
 }
 
